@@ -833,7 +833,10 @@ class Generator:
                 "witness": blk.witness if blk else None, "lost_anchors": []}
         self.functions.append(info)
         if blk is not None and blk.stub:
-            self.unverified.append({"file": relfile, "item": fnpath, "reason": "R-stub-body: " + blk.stub})
+            import hashlib
+            body_sha = hashlib.sha1(" ".join(toks[k].text for k in sig_idx(toks, it.a0, it.end)).encode()).hexdigest()[:16]
+            info["stub_sha"] = body_sha
+            self.unverified.append({"file": relfile, "item": fnpath, "reason": "R-stub-body: " + blk.stub, "body_sha": body_sha})
         elif self.stub_all:
             self.unverified.append({"file": relfile, "item": fnpath, "reason": "contract assumed in this unit; body verified in the unit that owns the file"})
         for is_canary in variants:
